@@ -72,7 +72,7 @@ Init ==
   /\ rc = {} /\ sel = "none" /\ nom = "none"
   /\ pend = {} /\ nrounds = 0
   /\ phost = FALSE
-  /\ routes = [a \in Addr |-> IF sock \in {"mux", "tcpmux"} THEN "none" ELSE "us"]
+  /\ routes = [a \in Addr |-> IF sock \in {"mux", "tcpmux", "turn"} THEN "none" ELSE "us"]
   /\ hist = <<>>
   /\ last = [kind |-> "init", delivered |-> TRUE, first |-> FALSE]
 
@@ -116,8 +116,9 @@ Start ==
   /\ (LET r == IF sel = "none" /\ ~IsTcp THEN NewRound(pend, rc', nrounds) ELSE [pend |-> pend, n |-> nrounds]
       IN pend' = r.pend /\ nrounds' = r.n)
   \* connectivity checks go out on the raw socket (IceGatherer::get_socket), not through the session handle:
-  \* they do not route their destination back to this session
-  /\ UNCHANGED routes
+  \* they do not route their destination back to this session.  Through a TURN relay ("turn") a check first binds
+  \* a channel for its destination: there routes[d] = "us" stands for "a channel is bound for peer d"
+  /\ routes' = (IF sock = "turn" THEN Sent(routes, PendDsts(pend') \ PendDsts(pend)) ELSE routes)
   /\ last' = [kind |-> "start", delivered |-> TRUE, first |-> FALSE]
   /\ UNCHANGED <<sel, nom, cfgv>>
   /\ Log([op |-> "start"])
@@ -156,15 +157,25 @@ Accept(src, uc, rt) ==
                  THEN NewRound(pend, rc1, nrounds) ELSE [pend |-> pend, n |-> nrounds]
   IN /\ rc' = rc1 /\ sel' = sel1 /\ state' = state1 /\ nom' = nom1
      /\ pend' = r.pend /\ nrounds' = r.n
-     /\ routes' = Sent(rt, {src})             \* the reply goes through the session handle (new checks do not)
+     /\ routes' = (IF sock = "turn" THEN Sent(rt, PendDsts(r.pend) \ PendDsts(pend))     \* channels of the new checks
+                   ELSE Sent(rt, {src}))      \* the reply goes through the session handle (new checks do not)
 
 \* whom the USERNAME of a request names (shared_tcp.rs: peer_ufrag_from_binding_request)
 UserLocal(u) == CASE u = "ok" -> "us"
                   [] u \in {"wrong", "swapped", "prefix"} -> "other"
                   [] OTHER -> "nouser"                       \* missing, or no colon in it
 
+\* how a packet reaches the agent: "direct" on its own / shared sockets; through a TURN relay wrapped in a Data
+\* indication ("data"), as ChannelData on the channel bound for its source ("chan"), or BARE on the TURN client's
+\* 5-tuple, from the server address ("bare_srv") or from a stranger ("bare_x") - a bare packet is dispatched with the
+\* agent's own relayed address as its source
+ViasOf(k) == IF k = "turn" THEN {"data", "chan", "bare_srv", "bare_x"} ELSE {"direct"}
+Bare(v) == v \in {"bare_srv", "bare_x"}
+
 Request(q) ==
   /\ state # "Failed"
+  /\ (q.via = "chan" => routes[q.src] = "us")             \* ChannelData needs a bound channel
+  /\ (Bare(q.via) => ~Authentic(q) /\ q.src = "X")        \* bare requests: the adversarial ones only
   /\ LET ul == UserLocal(q.user)
          \* the demux records the route a USERNAME names before anything is verified
          rt1 == IF sock = "mux" /\ ul # "nouser" THEN [routes EXCEPT ![q.src] = ul]
@@ -172,7 +183,7 @@ Request(q) ==
                 ELSE routes
          delivered == CASE sock = "mux" -> ul = "us" \/ (ul = "nouser" /\ routes[q.src] = "us")
                         [] sock = "tcpmux" -> routes[q.src] = "us" \/ ul = "us"     \* later frame, or an attaching first frame
-                        [] OTHER -> TRUE
+                        [] OTHER -> TRUE                 \* "turn": every way explored here reaches handle_packet
      IN /\ (IF delivered /\ (Authentic(q) \/ "NoRequestAuth" \in Deviations)
              THEN Accept(q.src, q.uc, rt1)
              ELSE /\ UNCHANGED <<rc, sel, state, nom, pend, nrounds>>
@@ -180,9 +191,9 @@ Request(q) ==
         /\ last' = [kind |-> "request", auth |-> Authentic(q), known |-> (q.src \in rc), delivered |-> delivered,
                first |-> (sock = "tcpmux" /\ routes[q.src] # "us")]
   /\ UNCHANGED <<started, phost, cfgv>>
-  /\ Log([op |-> "request", src |-> q.src, user |-> q.user, mi |-> q.mi, uc |-> q.uc, fp |-> q.fp])
+  /\ Log([op |-> "request", src |-> q.src, user |-> q.user, mi |-> q.mi, uc |-> q.uc, fp |-> q.fp, via |-> q.via])
 
-Requests == [src : Addr, user : UserAlpha, mi : MiAlpha, uc : BOOLEAN, fp : FpAlpha]
+Requests == [src : Addr, user : UserAlpha, mi : MiAlpha, uc : BOOLEAN, fp : FpAlpha, via : ViasOf(sock)]
 
 ---------------------------------------------------------------------------
 (* Inbound response.  tx is an outstanding transaction or Unknown.          *)
@@ -217,27 +228,30 @@ Matched(p, class) ==
     THEN /\ pend' = pend \ ({p} \cup others) /\ sel' = p.dst /\ nom' = "true" /\ UNCHANGED state
     ELSE /\ pend' = pend \ ({p} \cup others) /\ sel' = p.dst /\ nom' = "false" /\ state' = "Failed"
 
-Response(tx, class, src) ==
+Response(tx, class, src, via) ==
   /\ state # "Failed"
-  /\ (IF routes[src] # "us"
+  /\ (via = "chan" => routes[src] = "us")
+  /\ (Bare(via) => src = "X")
+  /\ (IF sock # "turn" /\ routes[src] # "us"
       THEN UNCHANGED <<sel, state, nom, pend>>                \* dropped by the demux
       ELSE IF tx \in pend
       THEN Matched(tx, class)
       ELSE IF "AnyResponse" \in Deviations /\ pend # {}
            THEN \E p \in pend : Matched(p, class)          \* a response consumed although it matches nothing
            ELSE UNCHANGED <<sel, state, nom, pend>>)
-  /\ last' = [kind |-> "response", matched |-> (tx \in pend), delivered |-> (routes[src] = "us"),
+  /\ last' = [kind |-> "response", matched |-> (tx \in pend), delivered |-> (sock = "turn" \/ routes[src] = "us"),
                first |-> (sock = "tcpmux" /\ routes[src] # "us")]
   /\ UNCHANGED <<rc, nrounds, started, phost, routes, cfgv>>
   /\ Log([op |-> "response",
           tx |-> IF tx \in pend THEN [dst |-> tx.dst, uc |-> tx.uc, known |-> TRUE]
                  ELSE [dst |-> "none", uc |-> FALSE, known |-> FALSE],
-          class |-> class, src |-> src])
+          class |-> class, src |-> src, via |-> via])
 
 Next ==
   \/ Start
   \/ \E q \in Requests : Request(q)
-  \/ \E tx \in pend \cup {Unknown}, class \in {"success", "error"}, src \in Addr : Response(tx, class, src)
+  \/ \E tx \in pend \cup {Unknown}, class \in {"success", "error"}, src \in Addr, via \in ViasOf(sock) :
+        Response(tx, class, src, via)
 
 Spec == Init /\ [][Next]_vars
 
